@@ -159,7 +159,7 @@ main(int argc, char **argv)
 
   /* read the mask file if --p-mask is enabled */
   if(! esl_opt_IsDefault(go, "--p-mask")) { 
-    if((status = read_mask_file(esl_opt_GetString(go, "--p-mask"), errbuf, &mask, &masklen)) != eslOK) esl_fatal(errbuf);
+    if((status = read_mask_file(esl_opt_GetString(go, "--p-mask"), errbuf, &mask, &masklen)) != eslOK) esl_fatal("%s", errbuf);
   }
   /* open the c2dfile for output, if nec */
   if (esl_opt_IsOn(go, "--c2dfile")) { 
